@@ -152,7 +152,9 @@ func parserSeq(s *Scope, node ast.Node, cursor types.Object) wseq {
 		}
 		return w
 	}
-	walkAll(node, func(n ast.Node) bool {
+	// traversal order = source order; the body of an extracted private helper is visited where
+	// it is called (its cursor parameter is the caller's cursor through the object aliases)
+	s.walkDeep(node, func(n ast.Node) bool {
 		switch x := n.(type) {
 		case *ast.AssignStmt:
 			if x.Tok == token.ADD_ASSIGN && len(x.Lhs) == 1 && identObj(s.Info, x.Lhs[0]) == cursor {
@@ -165,7 +167,6 @@ func parserSeq(s *Scope, node ast.Node, cursor types.Object) wseq {
 		}
 		return true
 	})
-	sort.Slice(evs, func(i, j int) bool { return evs[i].pos < evs[j].pos })
 	for _, e := range evs {
 		out = append(out, e.ws...)
 	}
@@ -290,14 +291,38 @@ func ruleWALRecordLayoutAgreement(c *Ctx) {
 	n := c.decodeWidthsAgree(rule, par)
 	c.Floor(rule, par.Name, "decode sites with constant slice width", n, 5)
 	// data shapes
+	// the cursor of a decoder: the local that is advanced (`x++` / `x += …`) most often
 	cursorOf := func(fb *Scope) types.Object {
-		var cur types.Object
+		cnt := map[types.Object]int{}
+		var order []types.Object
+		note := func(o types.Object) {
+			if o == nil {
+				return
+			}
+			if cnt[o] == 0 {
+				order = append(order, o)
+			}
+			cnt[o]++
+		}
 		fb.walk(func(n ast.Node) bool {
-			if inc, ok := n.(*ast.IncDecStmt); ok && cur == nil {
-				cur = identObj(fb.Info, inc.X)
+			switch x := n.(type) {
+			case *ast.IncDecStmt:
+				if x.Tok == token.INC {
+					note(identObj(fb.Info, x.X))
+				}
+			case *ast.AssignStmt:
+				if x.Tok == token.ADD_ASSIGN && len(x.Lhs) == 1 {
+					note(identObj(fb.Info, x.Lhs[0]))
+				}
 			}
 			return true
 		})
+		var cur types.Object
+		for _, o := range order {
+			if cur == nil || cnt[o] > cnt[cur] {
+				cur = o
+			}
+		}
 		return cur
 	}
 	tbShape := c.S(rule, "(*utils/io.DataShape).toBytes")
